@@ -1,15 +1,26 @@
 """C20 — sampling, ranking and summary helpers return what their names promise.
 
-Model: lean/HydroVerif/Model/C20.lean; theorems: lean/HydroVerif/Props/C20.lean.
+Model: lean/HydroVerif/Model/C20.lean + Model/C20X.lean; theorems: lean/HydroVerif/Props/C20.lean.
+Three instances of the generic model are run by the driver: Float (compared within a few ulp), exact rationals, and exact
+rationals with a round-to-nearest-even to 53 bits after every operation (rnd53: numpy's doubles, compared for equality).
 Correspondence (Float instance of the model vs the real code, a few ulp):
   sutils.lhs        np.random.permutation / uniform are wrapped while lhs runs: every permutation and the
                     unit draws behind every uniform() call are recorded (or injected: identity / reversed
                     permutation, draws 0 and 1-2^-53) and handed to the model, which rebuilds the sample
   sutils.ppos       all sizes, constants on and around [0, 0.5]; exact-rational instance as well
-  standard_normal   ranks (average / min / max / sorted) and norm.ppf of the model's plotting positions
+  sutils.lhs_norm   the probabilities drawn on the unit hypercube (model lhsUnit on the recorded draws), norm.ppf and the
+                    Cholesky factor applied by the harness
+  standard_normal   ranks (average / min / max / first / dense / sorted) and norm.ppf of the model's plotting positions;
+                    the vector is handed over as float64 / float32 array, list, tuple, Series (shuffled index) and as
+                    integer data (int32 / int64 / uint64 arrays, lists and Series of ints, magnitudes beyond 2**53 with
+                    neighbouring values): integer data go to the exact-rational instance; cst outside [0, 0.5] model only
   pareto_front      through the rebuilt C kernel: 0..60 points x 1..5 dims, ties, NaN, both orientations,
-                    C / Fortran / integer inputs
-  boxplot_stats, Boxplot(df).stats, Boxplot(x, by=...).stats     (looked up by label)
+                    C / Fortran / integer inputs; model-only stream: ±inf coordinates, orientations 0 / 2 / -3 / 7 / 1000,
+                    arrays without columns, the rnd53 instance
+  boxplot_stats, Boxplot(df).stats (per column and the whole frame), Boxplot(x, by=...).stats (looked up by label; integer,
+                    string and float categories as array / list / Series)
+  Boxplot object    histories of public calls in any order, also those the object refuses (show_count / set_ylim /
+                    set_color before draw, hidden count text): accepted / refused compared call by call with boxRun
   Violin(df).stats / kde_x / kde_y   (np.random.uniform recorded; gaussian_kde evaluated by the harness on
                     the values the model selects, normalised by the model)
 Oracle (real code only, independent of the model): one sample per exact-rational stratum (bipartite
@@ -23,8 +34,13 @@ then random; malformed stream (bad ranges, cst outside, NaN in standard_normal, 
 A case is non-trivial when the call is accepted, returns a non-empty non-constant result and is distinct.
 """
 import math
+import os
 import warnings
 from fractions import Fraction
+
+# the matrices of this check are tiny: BLAS worker threads only spin (and compete with other checks on a shared machine)
+for _v in ("OMP_NUM_THREADS", "OPENBLAS_NUM_THREADS", "MKL_NUM_THREADS"):
+    os.environ.setdefault(_v, "1")
 
 import numpy as np
 
@@ -200,15 +216,23 @@ def edit_in_place(obj, rng):
     return None
 
 
+BOX_CANON = {"draw": "draw", "draw_log": "draw", "draw_offset": "draw", "show_count": "show_count", "set_ylim": "set_ylim",
+             "set_color": "set_color", "items": "items", "minmax": "items", "hide_count": "hide_count"}
+
+
 def box_history(bx, rng, plt):
-    """call other public methods of a Boxplot on a throw-away figure; returns the op names.
-    Methods that raise are recorded, not judged: only the statistics read afterwards are."""
-    ops = []
+    """call other public methods of a Boxplot on a throw-away figure, in any order - also the orders the object refuses
+    (show_count / set_ylim / set_color before any draw, show_count with the count text switched off).
+    Returns (op names as run, model op names, accepted flags): which calls are accepted is compared with the model's
+    `boxRun`; the statistics read afterwards are judged by the oracle."""
+    ops, canon, flags = [], [], []
     fig, ax = plt.subplots()
     try:
-        for k in range(rng.randint(1, 4)):
-            op = rng.choice(["draw", "draw_log"]) if k == 0 else \
-                rng.choice(["draw", "draw_log", "draw_offset", "show_count", "set_ylim", "set_color", "items", "minmax"])
+        fault_first = rng.random() < 0.35
+        for k in range(rng.randint(1, 5)):
+            op = rng.choice(["draw", "draw_log"]) if k == 0 and not fault_first else \
+                rng.choice(["draw", "draw_log", "draw_offset", "show_count", "show_count", "set_ylim", "set_color", "items", "minmax",
+                            "hide_count"])
             try:
                 if op == "draw":
                     bx.draw(ax=ax)
@@ -222,6 +246,8 @@ def box_history(bx, rng, plt):
                     bx.set_ylim((rng.choice([-5.0, 0.5]), rng.choice([3.0, 1e3])), hide_offlimit_text=rng.random() < 0.5)
                 elif op == "set_color":
                     bx.set_color(".", "tab:red", alpha=0.3)
+                elif op == "hide_count":
+                    bx.count.show_text = False
                 elif op == "items":
                     bx.box.width = rng.choice([0.3, 0.9])
                     bx.box.show_text = True
@@ -234,11 +260,20 @@ def box_history(bx, rng, plt):
                 elif op == "minmax":
                     bx.minmax.marker = "o"
                 ops.append(op)
+                flags.append(1)
             except Exception as e:
                 ops.append(f"{op}:raised:{type(e).__name__}")
+                flags.append(0)
+            # whether matplotlib raises inside a draw is an input of the model (external); what the object accepts next is not
+            # (so is whether the elements of a column at least were stored before it raised: `elements` is public)
+            if BOX_CANON[op] == "draw":
+                stored = bool(getattr(bx, "elements", None))
+                canon.append(("draw" if stored else "draw_empty") if flags[-1] else ("draw_fail" if stored else "draw_fail_early"))
+            else:
+                canon.append(BOX_CANON[op])
     finally:
         plt.close(fig)
-    return ops
+    return ops, canon, flags
 
 
 def violin_history(vl, rng, plt):
@@ -280,6 +315,15 @@ def body(ctx):
     lean = ctx.lean
     reqs, checks = [], []          # checks: (kind, impl, case)
 
+    import time as _time
+    _t = {"last": _time.time()}
+    section_s = ctx.extra.setdefault("section_s", {})
+
+    def mark(name):
+        now = _time.time()
+        section_s[name] = round(section_s.get(name, 0.0) + now - _t["last"], 1)
+        _t["last"] = now
+
     def add(req, kind, impl, case):
         reqs.append(req)
         checks.append((kind, impl, case))
@@ -315,9 +359,12 @@ def body(ctx):
             nparams = rng.randint(1, 6)
             pmin, pmax, shapes_used = [], [], set()
             for _ in range(nparams):
-                shape = rng.choice(["usual"] * 6 + ["narrow"] * 3 + ["wide"])
+                shape = rng.choice(["usual"] * 6 + ["narrow"] * 3 + ["wide", "intbounds"])
                 shapes_used.add(shape)
-                if shape == "narrow":
+                if shape == "intbounds":
+                    lo = float(rng.randint(-50, 50))
+                    width = float(rng.choice([1, 1, 2, 7, 100, rng.randint(1, 1000)]))
+                elif shape == "narrow":
                     # absolute width 1e-14 .. 1e-8 at offsets 0, 0.5, 1e6 ...: strata far narrower than any absolute
                     # constant, but still >= 2048 doubles wide so that they are distinct floats
                     lo = rng.choice([0.0, 0.0, 1e-12, 0.5, -0.5, 1.0, 1e6])
@@ -341,12 +388,25 @@ def body(ctx):
                 pmax = [top] * nparams
             else:
                 pmax_arg = list(pmax) if rng.random() < 0.7 else np.array(pmax)
+            pmin_arg = pmin
+            if not bcast and all(float(v).is_integer() and abs(v) < 2 ** 31 for v in pmin + pmax):
+                # integer bounds handed over as integers (Python ints / integer arrays): same ranges, same strata
+                how_int = rng.choice(["pyint", "int64", "int32", "mixed"])
+                shapes_used.add("as_" + how_int)
+                if how_int == "pyint":
+                    pmin_arg, pmax_arg = [int(v) for v in pmin], [int(v) for v in pmax]
+                elif how_int == "mixed":
+                    pmin_arg, pmax_arg = [int(v) for v in pmin], np.array(pmax)
+                else:
+                    pmin_arg, pmax_arg = np.array(pmin).astype(how_int), np.array(pmax).astype(how_int)
             if preset is not None:
                 n, pmin, pmax = int(preset["n"]), [float(v) for v in preset["pmin"]], [float(v) for v in preset["pmax"]]
-                nparams, bcast, pmax_arg = len(pmin), False, list(pmax)
+                nparams, bcast, pmax_arg, pmin_arg = len(pmin), False, list(pmax), pmin
             # a stratum must span many doubles, or "one sample per stratum" is not a statement about floats any more
             if any((b - a) / n < 1024 * math.ulp(max(abs(a), abs(b))) for a, b in zip(pmin, pmax)):
                 return
+            # nsamples goes through int(): any integer-valued spelling is the same sample size
+            n_arg = rng.choice([n, n, n, np.int64(n), np.int32(n), float(n)])
             inject = None
             u = rng.random()
             if preset is not None:
@@ -364,7 +424,7 @@ def body(ctx):
             def step(sg):
                 np.random.seed(rng.randrange(2 ** 32))
                 with Draws(inject) as dr:
-                    okc, smp = guarded(sg, lambda: sutils.lhs(n, pmin, pmax_arg), {"n": n, "pmin": pmin, "pmax": pmax})
+                    okc, smp = guarded(sg, lambda: sutils.lhs(n_arg, pmin_arg, pmax_arg), {"n": n, "pmin": pmin, "pmax": pmax})
                 holder["raw"] = smp
                 if not okc:
                     return
@@ -448,6 +508,55 @@ def body(ctx):
         add(f"lhs {n} {C.flist(a)} {C.flist(b)} [{';'.join(','.join(str(k) for k in p) for p in dr.perms)}] {C.fmat(dr.unit)}",
             "lhs_malformed", impl, {"n": n, "pmin": a, "pmax": b})
 
+    mark('lhs')
+    # ---- lhs_norm reaches lhs through another route: probabilities drawn on the unit hypercube (model: lhsUnit on the
+    # recorded draws), then norm.ppf and the Cholesky factor of the covariance (external, applied by the harness)
+    from scipy import linalg as _linalg
+    for it in range(ctx.scale(60, 400)):
+        def one_case():
+            n = rng.choice([1, 2, 3, 5, 10, 33, rng.randint(1, 60)])
+            nvars = rng.randint(1, 4)
+            mean = np.array([rng.choice([0.0, 5.0, -100.0, rng.uniform(-3, 3)]) for _ in range(nvars)])
+            diagonal = rng.random() < 0.5
+            if diagonal:
+                cov = np.diag([rng.choice([1.0, 0.01, 25.0, rng.uniform(0.1, 4)]) for _ in range(nvars)])
+            else:
+                a_ = np.array([[rng.gauss(0, 1) for _ in range(nvars)] for _ in range(nvars)])
+                cov = a_ @ a_.T + rng.choice([0.1, 1.0]) * np.eye(nvars)
+            inject = rng.choice([None, None, None, ("id", None), ("rev", 0.5), (None, 0.5)])
+            np.random.seed(rng.randrange(2 ** 32))
+            case = {"n": n, "mean": mean.tolist(), "cov": cov.tolist(), "inject": inject}
+            with Draws(inject) as dr:
+                okc, smp = guarded("lhs_norm", lambda: sutils.lhs_norm(n, mean, cov), case)
+            if not okc:
+                return
+            smp = np.asarray(smp, dtype=float)
+            if smp.shape != (n, nvars):
+                ctx.finding("lhs_norm/shape", "lhs_norm does not return an (nsamples, nvars) array", case)
+                return
+            add(f"lhsunit {n} {nvars} [{';'.join(','.join(str(k) for k in p) for p in dr.perms)}] {C.fmat(dr.unit)}", "lhsunit",
+                (smp.tolist(), mean.tolist(), cov.tolist()), case)
+            ctx.count(("lhs_norm", n, nvars, tuple(smp[0].tolist())), n >= 2, "lhs_norm/" + ("diagonal" if diagonal else "full") + "_cov/"
+                      + ("injected" if inject else "numpy-draws"), sample={"op": "lhs_norm", "n": n, "mean": mean.tolist(), "first_row": smp[0].tolist()})
+            # ---- oracle (independent variables only): on the probability scale every variable has exactly one
+            # sample in each of the n equal strata of (0, 1)
+            if diagonal:
+                for j in range(nvars):
+                    u = norm.cdf((smp[:, j] - mean[j]) / math.sqrt(cov[j, j]))
+                    cands = []
+                    for v in u:
+                        t = float(v) * n
+                        k = math.floor(t)
+                        c = {k} | ({k - 1} if t - k <= 1e-7 else set()) | ({k + 1} if (k + 1) - t <= 1e-7 else set())
+                        cands.append(sorted(v_ for v_ in c if 0 <= v_ < n))
+                    if any(not c for c in cands) or not matching_ok(cands, n):
+                        ctx.finding("lhs_norm/independent/stratum_not_hit_once",
+                                    "on the probability scale some stratum of a variable holds no sample or several",
+                                    {**case, "variable": j, "probabilities": [float(v) for v in u[:20]]})
+                        break
+        attempt('lhs_norm', one_case)
+
+    mark('lhs_norm')
     # ================================================================ ppos
     csts = [0.0, 0.5, 0.3, 0.375, 0.3175, 0.4, 0.25, 1e-300, 0.5 - 2.0 ** -54]
     nmax = ctx.scale(60, 400)
@@ -476,6 +585,8 @@ def body(ctx):
                   sample={"op": "ppos", "n": n, "cst": cst, "first": impl[1][:3] if impl[1] else None})
         if cst == cst and impl[0] == "ok" and n <= 40:
             add(f"pposq {n} {C.rat(cst)}", "pposq", impl, case)
+            # the same model on exact rationals with every operation rounded to 53 bits: the very doubles numpy computes
+            add(f"pposr {n} {C.rat(cst)}", "pposr", impl, case)
         if not inside or impl[0] != "ok":
             return raw
         # ---- oracle
@@ -538,29 +649,100 @@ def body(ctx):
         steps.append({**steps[0], "n_as": rng.choice(list(SPELL_N)), "edit": None})     # the first call once more, last
         attempt('ppos', lambda: ppos_history(steps, "generated"))
 
+    mark('ppos')
     # ================================================================ standard_normal
-    for it in range(ctx.scale(450, 3000)):
-        def one_case():
-            n = [1, 2, 3][it] if it < 3 else rng.choice([2, 3, 5, 8, 20, 60, ctx.scale(150, 400)])
-            x, kind = gen_column(rng, n, rng.choice(["normal", "ties", "fewties", "const", "lognormal", "big"]))
-            if rng.random() < 0.05 and n >= 2:
-                x[rng.randrange(n)] = rng.choice([float("inf"), float("-inf")])
-            meth = rng.choice(["average", "average", "min", "max", "sorted"])
+    # the vector is handed over in every numeric container / dtype the function takes (it ranks the data AS GIVEN):
+    # float64 / float32 arrays, lists, tuples, Series with a shuffled index, and integer data - int32, int64, uint64
+    # arrays, lists and Series of Python ints - including magnitudes beyond 2**53 where neighbouring integers are not
+    # distinct doubles. The oracle and the exact-rational instance of the model work on the exact values.
+    INT_BASES = {"int64": [2 ** 53, 2 ** 53 - 3, -(2 ** 53), 2 ** 60, 2 ** 62, -(2 ** 62), 2 ** 63 - 40, -(2 ** 63) + 1,
+                           1_700_000_000_000_000_000, 4_102_444_800_000_000_000],
+                 "uint64": [2 ** 53, 2 ** 63 - 5, 2 ** 63, 2 ** 64 - 40, 1_700_000_000_000_000_000],
+                 "int32": [2 ** 31 - 40, -(2 ** 31) + 1, 2 ** 24, 0]}
+
+    def gen_ints(n, family):
+        """n exact integers of an integer family; returns (values, kind)"""
+        lo, hi = {"int64": (-(2 ** 63), 2 ** 63 - 1), "uint64": (0, 2 ** 64 - 1), "int32": (-(2 ** 31), 2 ** 31 - 1)}[family]
+        kind = rng.choice(["small_ties", "perm", "adjacent", "adjacent", "adjacent_ties", "two_clusters", "spread"])
+        if kind == "small_ties":
+            v = [rng.randint(0, 9) for _ in range(n)]
+        elif kind == "perm":
+            v = rng.sample(range(-3 if lo < 0 else 0, n + 5), n)
+        elif kind in ("adjacent", "adjacent_ties"):
+            base = rng.choice(INT_BASES[family])
+            span = max(2, n // 3) if kind == "adjacent_ties" else 4 * n + 8
+            offs = [rng.randrange(span) for _ in range(n)] if kind == "adjacent_ties" else rng.sample(range(span), n)
+            v = [base + o for o in offs]
+        elif kind == "two_clusters":
+            b1, b2 = rng.choice(INT_BASES[family]), rng.choice(INT_BASES[family])
+            v = [rng.choice([b1, b2]) + rng.randrange(0, n + 3) for _ in range(n)]
+            v[rng.randrange(n)] = rng.choice([0, 7, lo + 1, hi])
+        else:
+            v = [rng.randint(lo, hi) for _ in range(n)]
+        return [min(hi, max(lo, int(a))) for a in v], kind
+
+    def snorm_argument(n):
+        """(exact values, what is handed to standard_normal, carrier, kind, is_integer_data)"""
+        carrier = rng.choice(["float64"] * 10 + ["float32", "list_float", "tuple_float", "series_float",
+                                                  "int64", "int64", "uint64", "int32", "list_int", "series_int"])
+        if carrier in ("int64", "uint64", "int32", "list_int", "series_int"):
+            family = carrier if carrier in ("int64", "uint64", "int32") else "int64"
+            vals, kind = gen_ints(n, family)
+            return vals, carrier, "int/" + kind, True
+        x, kind = gen_column(rng, n, rng.choice(["normal", "ties", "fewties", "const", "lognormal", "big"]))
+        if rng.random() < 0.05 and n >= 2:
+            x[rng.randrange(n)] = rng.choice([float("inf"), float("-inf")])
+        if carrier == "float32":
+            x = [float(np.float32(v)) for v in x]
+        if rng.random() < 0.04:
+            x[rng.randrange(n)] = float("nan")
+        return x, carrier, kind, False
+
+    def snorm_wrap(vals, carrier):
+        if carrier == "float64":
+            return np.array(vals, dtype=float)
+        if carrier == "float32":
+            return np.array(vals, dtype=np.float32)
+        if carrier in ("int64", "uint64", "int32"):
+            return np.array(vals, dtype=getattr(np, carrier))
+        if carrier in ("list_float", "list_int"):
+            return list(vals)
+        if carrier == "tuple_float":
+            return tuple(vals)
+        idx = list(range(100, 100 + len(vals)))
+        rng.shuffle(idx)
+        return pd.Series(vals, index=idx, dtype=float if carrier == "series_float" else np.int64)
+
+    def snorm_case(it, preset=None):
+            n = [1, 2, 3][it] if 0 <= it < 3 else rng.choice([2, 3, 5, 8, 20, 60, ctx.scale(150, 400)])
+            xv, carrier, kind, is_int = snorm_argument(n)
+            if is_int and n > 60:
+                n = 60
+                xv = xv[:n]
+            meth = rng.choice(["average", "average", "min", "max", "sorted", "first", "dense"])
+            if preset is not None:
+                xv, carrier, kind, is_int = [int(v) for v in preset["x"]], preset["carrier"], "corpus", True
+                n, meth = len(xv), preset.get("method", meth)
             cst = rng.choice([0.0, 0.0, 0.3, 0.375, 0.5, rng.uniform(0, 0.5)])
+            # standard_normal does not check cst: outside [0, 0.5] (excluded by hypothesis in the theorems, see
+            # normal_scores_argument_cst_needed) the real code is compared with the model only
+            cst_outside = rng.random() < 0.03 and not is_int     # (exact rationals have no inf / NaN for a zero denominator)
+            if cst_outside:
+                cst = rng.choice([1.0, -0.5, 0.75, 2.0, 0.5000000000000001])
             if meth == "sorted":
-                x = sorted(x)
-            xa = np.array(x, dtype=float)
-            if rng.random() < 0.04:
-                xa[rng.randrange(n)] = np.nan
-            case = {"x": xa.tolist() if n <= 30 else xa[:30].tolist() + ["..."], "n": n, "cst": cst, "method": meth, "kind": kind}
+                xv = sorted(xv, key=lambda v: (v != v, v))
+            xarg = snorm_wrap(xv, carrier)
+            has_nan = any(v != v for v in xv)
+            shown = [v if is_int else float(v) for v in xv]
+            case = {"x": shown if n <= 30 else shown[:30] + ["..."], "n": n, "cst": cst, "method": meth, "kind": kind, "carrier": carrier}
             holder = {}
 
             def step(sg):
                 try:
                     if meth == "sorted":
-                        un, rk = sutils.standard_normal(xa, cst, sorted=True)
+                        un, rk = sutils.standard_normal(xarg, cst, sorted=True)
                     else:
-                        un, rk = sutils.standard_normal(xa, cst, rank_method=meth)
+                        un, rk = sutils.standard_normal(xarg, cst, rank_method=meth)
                     holder["raw"] = (un, rk)
                     un = [float(v) for v in np.asarray(un, dtype=float).ravel()]
                     rk = [float(v) for v in np.asarray(rk, dtype=float).ravel()]
@@ -568,17 +750,25 @@ def body(ctx):
                 except Exception as e:
                     impl = ("err", None, None)
                     err_name = type(e).__name__
-                add(f"snorm {meth} {C.f2h(cst)} {C.flist(xa)}", "snorm", impl, case)
-                ctx.count(("snorm", meth, cst, tuple(xa.tolist())), impl[0] == "ok" and n >= 2 and kind != "const",
-                          f"standard_normal/{meth}/{kind}" if impl[0] == "ok" else "standard_normal/rejected")
+                if is_int:
+                    add(f"snormq {meth} {C.rat(cst)} {C.ilist(xv)}", "snormq", impl, case)
+                else:
+                    add(f"snorm {meth} {C.f2h(cst)} {C.flist(xv)}", "snorm", impl, case)
+                ctx.count(("snorm", meth, cst, carrier, tuple(xv) if is_int else tuple(C.f2h(v) for v in xv)),
+                          impl[0] == "ok" and n >= 2 and kind != "const",
+                          (f"standard_normal/{meth}/float64/{kind}" if carrier == "float64" else f"standard_normal/{meth}/{carrier}")
+                          if impl[0] == "ok" else "standard_normal/rejected")
                 if impl[0] != "ok":
-                    if not np.any(np.isnan(xa)):
+                    if not has_nan:
                         ctx.finding(sg + "/raises", f"standard_normal raises {err_name} on a NaN-free vector", case)
                     return
                 if len(un) != n or len(rk) != n:
                     ctx.finding(sg + "/wrong_length", "standard_normal does not return one score and one rank per value", case)
                     return
-                # ---- oracle: scores strictly increasing in the rank, ranks ordered as the data
+                if cst_outside:
+                    ctx.hist["standard_normal/cst_outside_[0,0.5]"] = ctx.hist.get("standard_normal/cst_outside_[0,0.5]", 0) + 1
+                    return
+                # ---- oracle: scores strictly increasing in the rank, ranks ordered as the (exact) data
                 order = sorted(range(n), key=lambda i: (rk[i], un[i]))
                 for i, j in zip(order, order[1:]):
                     if (rk[i] < rk[j]) != (un[i] < un[j]) or (rk[i] == rk[j]) != (un[i] == un[j]):
@@ -586,12 +776,23 @@ def body(ctx):
                                     "normal scores are not a strictly increasing function of the ranks",
                                     {**case, "ranks": [rk[i], rk[j]], "scores": [un[i], un[j]]})
                         break
-                if meth != "sorted":
-                    order = sorted(range(n), key=lambda i: (x[i] if xa[i] == xa[i] else 0, rk[i]))
+                if meth == "first":
+                    # ties are ranked in the order they appear: ranks (and scores) increase along (value, position)
+                    order = sorted(range(n), key=lambda i: (xv[i], i))
                     for i, j in zip(order, order[1:]):
-                        if (xa[i] < xa[j]) != (rk[i] < rk[j]) or (xa[i] == xa[j]) != (rk[i] == rk[j]):
-                            ctx.finding(sg + "/ranks_not_order_preserving", "ranks do not follow the order (and ties) of the data",
-                                        {**case, "values": [float(xa[i]), float(xa[j])], "ranks": [rk[i], rk[j]]})
+                        if not (rk[i] < rk[j] and un[i] < un[j]):
+                            ctx.finding(sg + ("/integer_data" if is_int else "") + "/first/ranks_not_order_preserving",
+                                        "rank_method='first': ranks (or scores) do not increase with the value and, among equal values, with the position",
+                                        {**case, "values": [shown[i], shown[j]], "positions": [i, j], "ranks": [rk[i], rk[j]], "scores": [un[i], un[j]]})
+                            break
+                elif meth != "sorted":
+                    order = sorted(range(n), key=lambda i: (xv[i] if xv[i] == xv[i] else 0, rk[i]))
+                    for i, j in zip(order, order[1:]):
+                        if (xv[i] < xv[j]) != (rk[i] < rk[j]) or (xv[i] == xv[j]) != (rk[i] == rk[j]) or \
+                                (xv[i] < xv[j]) != (un[i] < un[j]):
+                            ctx.finding(sg + ("/integer_data" if is_int else "") + "/ranks_not_order_preserving",
+                                        "ranks (or scores) do not follow the order (and ties) of the data as given",
+                                        {**case, "values": [shown[i], shown[j]], "ranks": [rk[i], rk[j]], "scores": [un[i], un[j]]})
                             break
 
             step('standard_normal')
@@ -601,8 +802,17 @@ def body(ctx):
                 if how is not None:
                     ctx.hist['standard_normal/caller_edit/' + how] = ctx.hist.get('standard_normal/caller_edit/' + how, 0) + 1
                     step('standard_normal/after_caller_edit')
-        attempt('standard_normal', one_case)
 
+    for f in sorted((C.ROOT / "corpus" / PID).glob("*.json")):
+        import json as _json
+        c = _json.loads(f.read_text())
+        if c.get("entry") == "standard_normal":
+            for case_ in c["cases"]:
+                attempt('standard_normal', lambda: snorm_case(-1, case_))
+    for it in range(ctx.scale(450, 3000)):
+        attempt('standard_normal', lambda: snorm_case(it))
+
+    mark('standard_normal')
     # ================================================================ pareto_front
     shapes = [(nv, nc) for nv in (0, 1, 2, 3) for nc in (1, 2, 5)]
     def pareto_case(it, preset=None):
@@ -724,6 +934,48 @@ def body(ctx):
     for it in range(ctx.scale(800, 5000)):
         attempt('pareto_front', lambda: pareto_case(it))
 
+    # ---- beyond the property's quantifier, model against code only (no oracle): ±inf coordinates (two equal infinities
+    # are skipped like a missing value, theorem paretoFrontX_flag_iff / _same_infinity_skipped), orientation values other
+    # than +1 / -1 (only the sign is used, paretoFront_orientation_sign), points without any coordinate
+    def fmt_x(v):
+        return "nan" if v != v else "inf" if v == float("inf") else "-inf" if v == float("-inf") else C.rat(v)
+
+    for it in range(ctx.scale(150, 900)):
+        def one_case():
+            nv, nc = rng.randint(0, 12), rng.randint(1, 4)
+            pool = [0.0, 1.0, 2.0, -1.0, 0.5, 1e308, -1e308, 5e-324, -5e-324, 1e-320, float("inf"), float("inf"), float("-inf"),
+                    float("-inf"), float("nan"), 0.1, 0.30000000000000004, 0.3]
+            finite_only = rng.random() < 0.35
+            d = [[rng.choice([v for v in pool if not finite_only or abs(v) < float("inf") or v != v]) if rng.random() < 0.8
+                  else rng.gauss(0, 1) for _ in range(nc)] for _ in range(nv)]
+            o = rng.choice([1, -1, 1, -1, 2, -3, 7, 1000, 0])
+            arr = np.array(d, dtype=float).reshape(nv, nc)
+            case = {"data": d, "orientation": o, "stream": "pareto_front/extended"}
+            try:
+                res = [int(v) for v in np.asarray(sutils.pareto_front(arr, o)).ravel()]
+            except Exception as e:
+                ctx.disagree("C20/paretox: pareto_front raises on an array of doubles", {**case, "error": str(e)[:200]})
+                return
+            has_inf = any(abs(v) == float("inf") for r in d for v in r)
+            add(f"paretox {o} {C.fmat(d) if nv else '[]'}", "pareto", res, case)
+            # exact rationals with a rounding to 53 bits after the subtraction and after the product (IEEE without
+            # exponent limits; overflow and subnormal differences keep their sign in both, and only the sign is used)
+            if nv:
+                add(f"paretoxq {o} [{';'.join(','.join(fmt_x(v) for v in r) for r in d)}]", "pareto", res, case)
+            if not has_inf:
+                add(f"paretow 2 {o} {C.fmat(d) if nv else '[]'}", "paretond", "ok " + C.ilist(res), case)
+            ctx.count(("paretox", o, tuple(map(tuple, map(lambda r: [C.f2h(v) for v in r], d)))), nv >= 2 and sum(res) > 0,
+                      "pareto_front/extended/" + ("inf" if has_inf else "finite") + f"/o={'+-1' if abs(o) == 1 else '0' if o == 0 else 'other'}")
+        attempt('pareto_front', one_case)
+    for nv in (0, 1, 2, 3, 5):
+        try:
+            r_ = [int(v) for v in np.asarray(sutils.pareto_front(np.zeros((nv, 0)), 1)).ravel()]
+        except Exception:
+            r_ = None
+        if r_ is not None and nv != 1:      # (a single row without entries has no spelling in the line protocol)
+            add(f"pareto 1 [{';' * max(0, nv - 1)}]", "pareto", r_, {"shape": [nv, 0]})
+        ctx.count(("pareto_nocol", nv), False, "pareto_front/no_columns/" + ("raises" if r_ is None else "all_dominated" if r_ and all(r_) else "none_dominated"))
+
     # ---- the wrapper's shape guard: only 2-dimensional data reach the kernel
     for arr_ in (np.arange(4.), np.arange(8.).reshape(2, 2, 2), np.array(3.0), np.arange(6.).reshape(3, 2)):
         try:
@@ -735,6 +987,7 @@ def body(ctx):
         add(f"paretond {arr_.ndim} 1 {C.fmat(rows) if rows else '[]'}", "paretond", impl, {"shape": list(arr_.shape)})
         ctx.count(("paretond", arr_.shape), False, f"pareto_front/ndim={arr_.ndim}/" + impl.split(" ")[0])
 
+    mark('pareto_front')
     # ================================================================ box statistics
     def cov_pair():
         b = rng.choice([40.0, 50.0, 50.0, 60.5, 80.0, 95.0, 99.0, rng.uniform(40, 99.5)])
@@ -846,6 +1099,7 @@ def body(ctx):
         add(f"boxcheck {C.f2h(b)} {C.f2h(w)}", "boxcheck", impl, {"box_coverage": b, "whiskers_coverage": w})
         ctx.count(("boxcheck", b, w), False, "Boxplot/coverage_guard/" + impl)
 
+    mark('boxplot_stats')
     # ---- Boxplot(df).stats : one column of statistics per data column
     for it in range(ctx.scale(90, 600)):
         def one_case():
@@ -889,15 +1143,24 @@ def body(ctx):
                     box_oracle(tag, x, b, w, cnt, row, case)
 
             check_df(bx.stats, "Boxplot(df).stats", "Boxplot.stats/columns")
+            # the whole frame at once: guards, one column of statistics per data column, nothing for a frame without rows
+            st0 = bx.stats
+            if n == 0 or ("count" in st0.index and all(cn in st0.columns for cn in colsd)):
+                impl_df = [] if n == 0 and st0.shape[0] == 0 else [box_row(st0[cn], lab) for cn in colsd]
+                add(f"boxdf {C.f2h(b)} {C.f2h(w)} {ncol} {C.fmat(list(colsd.values())) if n else '[]'}", "boxdf", impl_df,
+                    {"data": {k: v[:40] for k, v in colsd.items()}, "box_coverage": b, "whiskers_coverage": w})
             if with_history and n > 0:
-                ops = box_history(bx, rng, plt)
+                ops, canon, flags = box_history(bx, rng, plt)
                 for o in ops:
                     ctx.hist["Boxplot.method/" + o] = ctx.hist.get("Boxplot.method/" + o, 0) + 1
+                add(f"boxhist 0 1 1 [{','.join(canon)}]", "boxhist", flags, {"ops": ops, "labels": "strings"})
+                ctx.count(("boxhist", tuple(canon)), 0 in flags, "Boxplot/history/" + ("with_refused_call" if 0 in flags else "all_accepted"))
                 check_df(bx.stats, "Boxplot(df).stats after " + ",".join(ops), "Boxplot.stats/columns/after_methods")
         attempt('Boxplot(df)', one_case)
 
+    mark('Boxplot(df)')
     # ---- Boxplot(x, by=...).stats : group-wise == each group taken alone
-    def by_case(x, cats, b, w, tag, history=False):
+    def by_case(x, cats, b, w, tag, history=False, relabel=None):
         """returns [(impl, case), ...]: one entry right after construction and, with `history`, one more after
         other public methods of the same object were called"""
         lab = labels(b, w)
@@ -908,10 +1171,15 @@ def body(ctx):
         if history:
             kw = {"style": rng.choice(["default", "default", "narrow"]), "show_mean": rng.random() < 0.4,
                   "show_text": rng.random() < 0.4, "width_from_count": rng.random() < 0.3}
-        okc, bx = guarded("Boxplot(by)", lambda: boxplot.Boxplot(xa, by=np.array(cats), box_coverage=b, whiskers_coverage=w, **kw), case)
+        # the labels the real code sees (integers, strings or floats in the same order) and how they are handed over
+        real = [relabel[c] for c in cats] if relabel else list(cats)
+        by_arg = rng.choice([lambda: np.array(real), lambda: list(real), lambda: pd.Series(real, name="grp"), lambda: pd.Series(real)])()
+        okc, bx = guarded("Boxplot(by)", lambda: boxplot.Boxplot(xa, by=by_arg, box_coverage=b, whiskers_coverage=w, **kw), case)
         if not okc:
             return []
         groups = sorted(set(cats))
+        rl = (lambda g: relabel[g]) if relabel else (lambda g: g)
+        str_labels = 1 if relabel and all(isinstance(v, str) for v in relabel.values()) else 0
 
         def read(st, tag, case):
             impl = []
@@ -920,10 +1188,10 @@ def body(ctx):
                 if not okc:
                     continue
                 cnt_a, row_a = box_row(alone, lab)
-                if g not in st.columns or "count" not in st.index:
+                if rl(g) not in st.columns or "count" not in st.index:
                     ctx.finding(f"{tag}/group_missing", "a category has no column in Boxplot(...).stats", {**case, "group": g})
                     continue
-                col = st[g]
+                col = st[rl(g)]
                 if len(set(lab)) == 5:
                     cnt, row = box_row(col, lab)
                 else:
@@ -953,9 +1221,12 @@ def body(ctx):
 
         out = [(read(bx.stats, tag, case), case)]
         if history:
-            ops = box_history(bx, rng, plt)
+            ops, canon, flags = box_history(bx, rng, plt)
             for o in ops:
                 ctx.hist["Boxplot.method/" + o] = ctx.hist.get("Boxplot.method/" + o, 0) + 1
+            # set_color hands the group labels to re.search, which refuses numbers
+            add(f"boxhist 0 1 {str_labels} [{','.join(canon)}]", "boxhist", flags, {"ops": ops, "labels": "strings" if str_labels else "numbers"})
+            ctx.count(("boxhist_by", tuple(canon)), 0 in flags, "Boxplot/history/" + ("with_refused_call" if 0 in flags else "all_accepted"))
             case2 = {**case, "after_methods": ops}
             out.append((read(bx.stats, tag + "/after_methods", case2), case2))
         return out
@@ -966,6 +1237,8 @@ def body(ctx):
             ncat = rng.randint(2, 5)
             weights = [rng.choice([1, 1, 3, 10]) for _ in range(ncat)]
             labs = rng.sample([-3, 0, 1, 2, 7, 10, 11, 25], ncat)
+            # labels of another type: groupby sorts them, the model sees their position in that order
+            label_type = rng.choice(["int"] * 4 + ["str", "float"])
             cats = rng.choices(labs, weights=weights, k=n)
             if len(set(cats)) < 2:
                 cats[0] = labs[0]
@@ -978,10 +1251,18 @@ def body(ctx):
             if len(set(labels(b, w))) < 5:
                 b, w = 50.0, 90.0
             sizes_g = sorted(cats.count(g) for g in set(cats))
-            for k, (impl, case) in enumerate(by_case(x, cats, b, w, "Boxplot.stats/by", history=rng.random() < 0.7)):
+            order_ = sorted(set(cats))
+            relabel = None
+            if label_type == "str":
+                names_ = sorted(rng.sample(["a", "b", "c", "d", "e", "f", "g", "h", "i", "j", "k", "l", "m", "n"], ncat) if rng.random() < 0.5 else [f"cat {i:02d}" for i in range(ncat)])
+                relabel = dict(zip(order_, names_))
+            elif label_type == "float":
+                relabel = {c: c + 0.5 for c in order_}
+            for k, (impl, case) in enumerate(by_case(x, cats, b, w, "Boxplot.stats/by", history=rng.random() < 0.7, relabel=relabel)):
                 add(f"boxby {C.f2h(b)} {C.f2h(w)} {C.ilist(cats)} {C.flist(x)}", "boxby", impl, case)
                 ctx.count(("boxby", k, b, w, tuple(cats), tuple(C.f2h(v) for v in x)), any(c > 3 for (_, c, _) in impl),
-                          f"Boxplot(by).stats/{len(set(cats))}cats/" + ("unequal" if sizes_g[0] != sizes_g[-1] else "equal") + ("/after_methods" if k else ""),
+                          f"Boxplot(by).stats/{len(set(cats))}cats/" + ("unequal" if sizes_g[0] != sizes_g[-1] else "equal") + ("/after_methods" if k else "")
+                          + ("" if label_type == "int" else "/labels=" + label_type),
                           sample={"op": "Boxplot(by).stats", "by": cats[:10], "data": x[:10], "groups": [(g, c) for g, c, _ in impl]})
         attempt('Boxplot(by)', one_case)
     # one category only is rejected
@@ -997,6 +1278,7 @@ def body(ctx):
     attempt("Boxplot(by)", lambda: by_case(xs, [0] * 15 + [1] * 25, 89.96, 90.0, "Boxplot.stats/by"))
     ctx.count(("boxby_collision",), True, "Boxplot(by).stats/label_collision")
 
+    mark('Boxplot(by)')
     # ================================================================ violin
     vreqs2 = []
 
@@ -1036,6 +1318,7 @@ def body(ctx):
                 ctx.count(("violin_raises", it), False, "Violin/raises")
                 return
             npts = vl.npoints_kde
+            add(f"vnpts {npk if npk is not None else 'none'} {n}", "vnpts", int(npts), {"npoints_kde": npk, "rows": n})
             st, kx, ky = vl.stats, vl.kde_x, vl.kde_y
             icall = 0
             for cn, x in colsd.items():
@@ -1106,6 +1389,7 @@ def body(ctx):
                         ctx.count(("violin_after", npts, tuple(ops), tuple(C.f2h(v) for v in x)), True, "Violin/after_methods")
         attempt('Violin', one_case)
 
+    mark('Violin')
     # ---------------- correspondence, first batch
     replies = lean.ask(reqs)
     for req, rep, (kind, impl, case) in zip(reqs, replies, checks):
@@ -1117,6 +1401,14 @@ def body(ctx):
                 if ok:
                     cols = [[C.h2f(t) for t in r.split(",")] if r else [] for r in toks[1][1:-1].split(";")] if toks[1] != "[]" else []
                     ok = len(cols) == len(impl) and all(lists_close(a, b) for a, b in zip(cols, impl))
+            elif kind == "lhsunit":
+                ok = toks[0] == "ok"
+                if ok:
+                    smp_, mean_, cov_ = (np.array(v, dtype=float) for v in impl)
+                    q = np.array([[C.h2f(t) for t in r.split(",")] if r else [] for r in toks[1][1:-1].split(";")]).T   # (n, nvars)
+                    want = (mean_[:, None] + np.dot(_linalg.cholesky(cov_).T, norm.ppf(q).T)).T
+                    scale = float(np.max(np.abs(want))) if want.size and np.all(np.isfinite(want)) else 1.0
+                    ok = want.shape == smp_.shape and bool(np.all((np.abs(want - smp_) <= 1e-9 * max(scale, 1.0)) | (want == smp_)))
             elif kind == "lhsq":
                 ok = toks[0] == "ok"
                 if ok:
@@ -1130,12 +1422,22 @@ def body(ctx):
             elif kind == "pposq":
                 vals = [float(Fraction(t)) for t in C.parse_list(toks[1])] if toks[0] == "ok" else None
                 ok = vals is not None and len(vals) == len(impl[1]) and all(abs(a - b) <= 1e-14 for a, b in zip(vals, impl[1]))
+            elif kind == "pposr":
+                vals = [Fraction(t) for t in C.parse_list(toks[1])] if toks[0] == "ok" else None
+                ok = vals is not None and len(vals) == len(impl[1]) and all(a == Fraction(b) for a, b in zip(vals, impl[1]))
             elif kind == "snorm":
                 ok = toks[0] == impl[0]
                 if ok and impl[0] == "ok":
                     u, rk = C.parse_flist(toks[1]), C.parse_flist(toks[2])
                     pu = [float(v) for v in norm.ppf(np.array(u))] if u else []
                     ok = rk == impl[2] and len(pu) == len(impl[1]) and \
+                        all((a != a and b != b) or a == b or abs(a - b) <= 1e-10 * max(1.0, abs(a)) for a, b in zip(pu, impl[1]))
+            elif kind == "snormq":
+                ok = toks[0] == impl[0]
+                if ok and impl[0] == "ok":
+                    u, rk = [Fraction(t) for t in C.parse_list(toks[1])], [Fraction(t) for t in C.parse_list(toks[2])]
+                    pu = [float(v) for v in norm.ppf(np.array([float(v) for v in u]))] if u else []
+                    ok = len(rk) == len(impl[2]) and all(a == Fraction(b) for a, b in zip(rk, impl[2])) and len(pu) == len(impl[1]) and \
                         all((a != a and b != b) or a == b or abs(a - b) <= 1e-10 * max(1.0, abs(a)) for a, b in zip(pu, impl[1]))
             elif kind == "paretond":
                 ok = (rep == impl) if impl != "err" else toks[0] == "err"
@@ -1171,6 +1473,25 @@ def body(ctx):
                             mv = [C.h2f(t) for t in vals.split(",")]
                             ok = ok and all(ulps_close(a, b) for a, b in zip(mv[:5] + mv[6:], row[:5] + row[6:])) and \
                                 (abs(mv[5] - row[5]) <= 1e-13 * cnt * max(abs(mv[6]), abs(mv[7]), 1e-300) or ulps_close(mv[5], row[5]))
+            elif kind == "boxhist":
+                ok = [int(t) for t in C.parse_list(toks[0])] == impl
+            elif kind == "boxdf":
+                ok = toks[0] == "ok"
+                if ok:
+                    gs = toks[1].split(";") if len(toks) > 1 and toks[1] else []
+                    ok = len(gs) == len(impl)
+                    for g, (cnt, row) in zip(gs, impl):
+                        c, vals = g.split(":")
+                        if int(c) != cnt:
+                            ok = False
+                        elif vals == "nan":
+                            ok = ok and all(v != v for v in row)
+                        else:
+                            mv = [C.h2f(t) for t in vals.split(",")]
+                            ok = ok and all(ulps_close(a, b) for a, b in zip(mv[:5] + mv[6:], row[:5] + row[6:])) and \
+                                (abs(mv[5] - row[5]) <= 1e-13 * cnt * max(abs(mv[6]), abs(mv[7]), 1e-300) or ulps_close(mv[5], row[5]))
+            elif kind == "vnpts":
+                ok = int(toks[0]) == impl
             elif kind == "vstats":
                 if rep == "ok nan":
                     ok = all(v != v for v in impl)
@@ -1185,6 +1506,7 @@ def body(ctx):
                          {"request": req[:1500], "impl": C.jsonable(impl) if not isinstance(impl, tuple) else repr(impl)[:1500],
                           "model": rep[:1500], **{k: v for k, v in case.items() if k not in ("perms", "unit")}})
 
+    mark('correspondence')
     # ---------------- violin profiles: abscissae and selection from the model, kde from scipy, normalisation from the model
     reqs2 = [f"vgrid {C.f2h(1e-10)} {npts} {C.flist(err if err is not None else [])} {C.flist(x)}" for (x, npts, err, _, _, _) in vreqs2]
     rep2 = lean.ask(reqs2)
@@ -1204,14 +1526,28 @@ def body(ctx):
             ctx.disagree(f"C20/vgrid: gaussian_kde on the model's selection fails ({type(e).__name__})", {"request": req[:1500], **case})
             continue
         reqs3.append("norm " + C.flist(yraw))
-        keep.append((ys_, case, req))
-    rep3 = lean.ask(reqs3)
-    for (ys_, case, req), r3, rq in zip(keep, rep3, reqs3):
-        toks = r3.split(" ")
+        # where the abscissae agree bit for bit the harness' kde values are the code's: the exact-rational model with every
+        # operation rounded to 53 bits must then give the very doubles of kde_y (subnormal quotients apart)
+        exact_r = mx == xs_ and len(yraw) <= 120 and all(v == v and abs(v) != float("inf") for v in yraw)
+        if exact_r:
+            reqs3.append("normr [" + ",".join(C.rat(float(v)) for v in yraw) + "]")
+        keep.append((ys_, case, req, exact_r))
+    mark("violin_profiles")
+    rep3 = iter(lean.ask(reqs3))
+    mark("violin_normalise_model")
+    for (ys_, case, req, exact_r) in keep:
+        toks = next(rep3).split(" ")
         my = C.parse_flist(toks[1]) if toks[0] == "ok" else None
         if my is None or len(my) != len(ys_) or not all((a != a and b != b) or abs(a - b) <= 1e-9 for a, b in zip(my, ys_)):
             ctx.disagree("C20/norm: kde_y differs from the model's normalisation of the kde", {"request": req[:800], "impl": ys_[:8], "model": (my or [])[:8], **case})
+        if exact_r:
+            toks = next(rep3).split(" ")
+            mq = [Fraction(t) for t in C.parse_list(toks[1])] if toks[0] == "ok" else None
+            if mq is None or len(mq) != len(ys_) or not all(a == Fraction(b) or (abs(b) < 1e-290 and abs(float(a) - b) < 1e-300) for a, b in zip(mq, ys_)):
+                ctx.disagree("C20/normr: kde_y is not the rounded normalisation of the kde, bit for bit", {"request": req[:800], "impl": ys_[:8], "model": [float(v) for v in (mq or [])[:8]], **case})
+            ctx.hist["Violin/kde_y_bit_for_bit"] = ctx.hist.get("Violin/kde_y_bit_for_bit", 0) + 1
 
+    mark('violin_profiles')
     ctx.extra["rule"] = __doc__.split("Cases:")[1].strip()
     ctx.assumptions += [
         "np.random.permutation returns a permutation of range(n) and np.random.uniform(low, high) = low + (high-low)*r with r in [0,1) (checked on every draw that is not injected)",
